@@ -122,26 +122,71 @@ def _base_source(root, rel):
 PROPS = [f"C{i:02d}" for i in range(1, 20)]
 
 
-def run_one(args):
-    prop, root, rel, qual, spec, desc = args
+def mutate(root, rel, qual, spec):
     source = _base_source(root, rel)
     if source is None:
-        return (desc, rel, qual, "n/a", [])
+        return None
     tree = ast.parse(source)
     fn = locate(tree, qual)
     if fn is None:
-        return (desc, rel, qual, "n/a", [])
+        return None
     victim = apply(fn, spec)
     if victim is not None:
         kind = spec[0]
         new = ast.Pass() if kind == "del" else (ast.Break() if kind == "c2b" else ast.Continue())
         if not replace_stmt(tree, victim, new):
-            return (desc, rel, qual, "n/a", [])
+            return None
     ast.fix_missing_locations(tree)
     try:
         src = ast.unparse(tree)
         compile(src, rel, "exec")
     except Exception:
+        return None
+    return src
+
+
+_WT = None
+
+
+def _scratch():
+    """One scratch copy of the tree per worker process (outside /repo and /verif), removed by the parent at the end."""
+    global _WT
+    if _WT is None:
+        import subprocess
+        _WT = f"/tmp/sweepwt_{os.getpid()}"
+        subprocess.run(["rsync", "-a", "--exclude", ".git", "--exclude", "__pycache__", os.environ.get("VERIF_REPO", "/repo") + "/", _WT + "/"], check=True)
+    return _WT
+
+
+def test_one(args):
+    """Does the pinned test suite still pass with this mutant? (only those are realistic 'silent' changes)"""
+    import subprocess
+    _prop, root, rel, qual, spec, desc = args
+    src = mutate(root, rel, qual, spec)
+    if src is None:
+        return (desc, rel, qual, "n/a")
+    wt = _scratch()
+    path = os.path.join(wt, rel)
+    orig = open(path, encoding="utf-8").read()
+    try:
+        with open(path, "w", encoding="utf-8") as fh:
+            fh.write(src)
+        try:
+            p = subprocess.run(["/venv/bin/python", "-m", "pytest", "-q", "-x", "-p", "no:cacheprovider", "--timeout=120"], cwd=wt,
+                               capture_output=True, text=True, timeout=600, env=dict(os.environ, PYTHONDONTWRITEBYTECODE="1", PYTHONPATH=wt))
+            ok = p.returncode == 0
+        except subprocess.TimeoutExpired:
+            ok = False
+    finally:
+        with open(path, "w", encoding="utf-8") as fh:
+            fh.write(orig)
+    return (desc, rel, qual, "tests-pass" if ok else "tests-fail")
+
+
+def run_one(args):
+    prop, root, rel, qual, spec, desc = args
+    src = mutate(root, rel, qual, spec)
+    if src is None:
         return (desc, rel, qual, "n/a", [])
     repo = Repo(root, {rel: src})
     props = PROPS if prop == "ALL" else [prop]
@@ -257,9 +302,23 @@ def main_all():
         results = list(ex.map(run_one, jobs, chunksize=2))
     summary = {"caught": 0, "survived": 0, "analysis-error": 0, "n/a": 0, "checker-crash": 0}
     rows = []
+    tested = {}
+    if "--tests" in sys.argv:
+        surv = [j for j, r in zip(jobs, results) if r[3] == "survived"]
+        print(f"running the test suite on {len(surv)} survivors", flush=True)
+        import glob
+        import shutil
+        try:
+            with ProcessPoolExecutor(max_workers=jobs_n) as ex:
+                for desc, rel, qual, st in ex.map(test_one, surv, chunksize=1):
+                    tested[(rel, qual, desc)] = st
+        finally:
+            for d in glob.glob("/tmp/sweepwt_*"):
+                shutil.rmtree(d, ignore_errors=True)
+        summary["survived+tests-pass"] = sum(1 for v in tested.values() if v == "tests-pass")
     for desc, rel, qual, status, keys in results:
         summary[status] += 1
-        rows.append({"where": f"{rel}::{qual}", "mutant": desc, "status": status, "by": keys})
+        rows.append({"where": f"{rel}::{qual}", "mutant": desc, "status": status, "by": keys, "tests": tested.get((rel, qual, desc), "")})
     out = {"mutants": len(jobs), "summary": summary, "rows": sorted(rows, key=lambda r: (r["where"], r["mutant"]))}
     os.makedirs(os.path.join(HERE, "out"), exist_ok=True)
     with open(os.path.join(HERE, "out", f"sweep_{tag}.json"), "w") as fh:
